@@ -1046,8 +1046,9 @@ impl Engine for FuzzEngine {
     }
 
     fn timeout_ms(&self) -> u64 {
-        // generous: a case is one whole sequence (up to ~300 statements) and the machine may be busy
-        120_000
+        // a case is one whole sequence (up to ~300 statements); the supervisor retries a time-out once, so a busy
+        // machine does not turn into `hang`, and a real hang costs two time-outs
+        45_000
     }
 }
 
